@@ -138,11 +138,14 @@ def s1_rawind(ctx, rule='C14.S1'):
                 ctx.check(equal(nxt, merge_next), rule, co, 'offset recurrence', 'inductive step: the offset for the next probe equals the merger\'s next offset (%s)' % merge_next,
                           'after probe k the exporter subtracts %s for the next probe, the merger added %s: from the third probe on rawInd is wrong' % (nxt, merge_next))
                 init = [a for a in co.body() if isinstance(a, ast.Assign) and unparse(a.targets[0]) == acc]
-                ctx.check(bool(init) and const_value(init[0].value) == 0 and not isinstance(const_value(init[0].value), bool), rule, co, init[0] if init else 'offset start', 'both offsets start at 0',
-                          'the exporter\'s offset starts at `%s`, the merger\'s at 0: channels.rawInd of the first (or only) probe is not its channel map' % (unparse(init[0].value) if init else '?'))
+                iv = const_value(co.expand(init[0].value)) if init else None
+                ctx.tri(bool(init) and iv == 0 and not isinstance(iv, bool), bool(init) and ((isinstance(iv, (int, float)) and (iv != 0 or isinstance(iv, bool))) or
+                                                                                  (iv is None and any(isinstance(n, ast.Attribute) for n in ast.walk(co.expand(init[0].value))))), rule, co, init[0] if init else 'offset start',
+                        'both offsets start at 0', 'the exporter\'s offset starts at `%s`, the merger\'s at 0: channels.rawInd of the first (or only) probe is not its channel map' % (unparse(init[0].value) if init else '?'),
+                        'the initial value of the exporter\'s offset was not recognised')
     S, saved4, co_ = alf_run(repo, 'make_channel_objects')
     a = saved4.get('channels.rawInd.npy', (None, None))[1]
-    ctx.check(isinstance(a, Arr) and a.axes == (Chan,), rule, co, 'channels.rawInd axis', 'channels.rawInd has one entry per channel', 'channels.rawInd is %s' % a)
+    ctx.check(isinstance(a, Arr) and a.axes == (Chan,), rule, co, 'channels.rawInd axis', 'channels.rawInd has one entry per channel', 'channels.rawInd is %s' % a, value=a)
     for r in S.reports:
         ctx.violated(rule, r.fi, r.node, '[make_channel_objects] %s' % r.msg)
 
@@ -188,9 +191,9 @@ def run(ctx):
     for nm, W in (('templates.waveforms.npy', Tmpl), ('clusters.waveforms.npy', Clu)):
         a = arr(nm)
         if isinstance(a, Arr) and isinstance(a.elem, Q) and len(a.axes) == 3:
-            ctx.check(a.axes[0] is W and a.axes[1] is Samp, 'C14.U1', mt, nm + ' axes', '%s on (%s, samples, listed channels)' % (nm, W), '%s is over %s' % (nm, a.axes))
+            ctx.check(a.axes[0] is W and a.axes[1] is Samp, 'C14.U1', mt, nm + ' axes', '%s on (%s, samples, listed channels)' % (nm, W), '%s is over %s' % (nm, a.axes), value=a)
             ctx.check(a.elem.d() == AKF, 'C14.U1', mt, nm + ' dimension', '%s = unwhitened, amplitude-rescaled waveform x unit factor' % nm,
-                      '%s has dimension %s, expected amp*ka*F (unwhitened, rescaled, in physical units)' % (nm, a.elem))
+                      '%s has dimension %s, expected amp*ka*F (unwhitened, rescaled, in physical units)' % (nm, a.elem), value=getattr(a, 'elem', a))
         else:
             ctx.undecided('C14.U1', mt, '%s not typed (%s)' % (nm, a))
     for nm, W in (('templates.waveformsChannels.npy', Tmpl), ('clusters.waveformsChannels.npy', Clu)):
@@ -201,7 +204,7 @@ def run(ctx):
         a = arr(nm)
         if isinstance(a, Arr) and isinstance(a.elem, Q):
             ctx.check(a.axes == (W,) and a.elem.d() == AKF, 'C14.U2', mt, nm, '%s: one amplitude per %s in physical units (unit factor applied)' % (nm, W),
-                      '%s is %s, expected one amp*ka*F value per %s (the unit factor must be applied)' % (nm, a, W))
+                      '%s is %s, expected one amp*ka*F value per %s (the unit factor must be applied)' % (nm, a, W), value=a)
         else:
             ctx.undecided('C14.U2', mt, '%s not typed (%s)' % (nm, a))
     # channel ordering (structure of the two loops)
@@ -310,9 +313,13 @@ def run(ctx):
         ctx.undecided('C14.U1', mt, 'the template / cluster export loops were not both recognised (%d found)' % nl)
     amp_calls = [c for c in mt.calls() if q.method_name(c) == 'get_amplitudes_true']
     uses = sorted(const_value(q.kwarg(c, 'use')) or 'templates' for c in amp_calls)
-    okf = uses == ['clusters', 'templates'] and all(c.args and unparse(c.args[0]) == 'self.ampfactor' for c in amp_calls)
-    ctx.check(okf, 'C14.U2', mt, amp_calls[0] if amp_calls else 'get_amplitudes_true', 'amplitudes are computed for templates and for clusters with the unit factor of the conversion',
-              'get_amplitudes_true is not called for both tables with self.ampfactor (%s)' % uses)
+    amp_calls = [c for f_ in repo.transparent_closure(mt) for c in f_.calls() if q.method_name(c) == 'get_amplitudes_true']
+    uses = sorted((const_value(q.arg(c, 1, 'use')) if q.arg(c, 1, 'use') is not None else 'templates') or '?' for c in amp_calls)
+    facs = [q.arg(c, 0, 'sample2unit') for c in amp_calls]
+    okf = uses == ['clusters', 'templates'] and all(x is not None and Pat().m('self.ampfactor', x) for x in facs)
+    badf = bool(amp_calls) and (any(x is None or isinstance(x, ast.Constant) for x in facs) or (len(amp_calls) == 2 and all(u_ in ('clusters', 'templates') for u_ in uses) and uses != ['clusters', 'templates']))
+    ctx.tri(okf, badf, 'C14.U2', mt, amp_calls[0] if amp_calls else 'get_amplitudes_true', 'amplitudes are computed for templates and for clusters with the unit factor of the conversion',
+            'get_amplitudes_true is not called for both tables with self.ampfactor (%s)' % uses, 'the calls computing the amplitudes were not recognised')
     # make_cluster_objects: durations, first amps file
     S, saved2, mc = alf_run(repo, 'make_cluster_objects')
     for r in S.reports:
@@ -320,16 +327,16 @@ def run(ctx):
     a = saved2.get('clusters.peakToTrough.npy', (None, None))[1]
     if isinstance(a, Arr) and isinstance(a.elem, Q):
         ctx.check(a.axes == (Clu,) and a.elem.d() == {'s': 1, 'kilo': 1}, 'C14.U2', mc, 'clusters.peakToTrough', 'clusters.peakToTrough: one duration in milliseconds per cluster id',
-                  'clusters.peakToTrough is %s, expected milliseconds per cluster id' % a)
+                  'clusters.peakToTrough is %s, expected milliseconds per cluster id' % a, value=a)
     else:
         ctx.undecided('C14.U2', mc, 'clusters.peakToTrough not typed (%s)' % a)
     blanked(ctx, repo, mc, saved2.get('clusters.peakToTrough.npy', (None, None))[1], 'C14.U2', 'durations')
     a = saved2.get('clusters.amps.npy', (None, None))[1]
     if isinstance(a, Arr) and isinstance(a.elem, Q):
         ctx.check(a.elem.d().get('F') == 1, 'C14.U2', mc, 'clusters.amps (cluster objects)', 'the cluster amplitudes written by make_cluster_objects carry the unit factor',
-                  'the cluster amplitudes written by make_cluster_objects have dimension %s (unit factor missing)' % a.elem)
+                  'the cluster amplitudes written by make_cluster_objects have dimension %s (unit factor missing)' % a.elem, value=getattr(a, 'elem', a))
     a = saved2.get('clusters.channels.npy', (None, None))[1]
-    ctx.check(isinstance(a, Arr) and a.axes == (Clu,) and isinstance(a.elem, Ix) and a.elem.space is Chan, 'C14.U2', mc, 'clusters.channels', 'clusters.channels = peak channel per cluster id', 'clusters.channels is %s' % a)
+    ctx.check(isinstance(a, Arr) and a.axes == (Clu,) and isinstance(a.elem, Ix) and a.elem.space is Chan, 'C14.U2', mc, 'clusters.channels', 'clusters.channels = peak channel per cluster id', 'clusters.channels is %s' % a, value=a)
     # make_depths
     cd_any = None
     for nofeat in (False, True):
@@ -342,7 +349,7 @@ def run(ctx):
         sd = saved3.get('spikes.depths.npy', (None, None))[1]
         if isinstance(cd, Arr) and isinstance(cd.elem, Q) and not any(is_unk(x) for x in cd.axes):
             ctx.check(cd.axes == (Clu,) and cd.elem.d() == {'um': 1} and 'xy:1' in cd.elem.tags, 'C14.U2', md, 'clusters.depths (%s)' % lab,
-                      'clusters.depths = y coordinate (um) of the peak channel of every cluster id', 'clusters.depths is %s, expected the y coordinate of the peak channel per cluster id' % cd)
+                      'clusters.depths = y coordinate (um) of the peak channel of every cluster id', 'clusters.depths is %s, expected the y coordinate of the peak channel per cluster id' % cd, value=cd)
         else:
             ctx.undecided('C14.U2', md, 'clusters.depths not typed (%s)' % cd)
         if isinstance(sd, Arr) and isinstance(sd.elem, Q) and not any(is_unk(x) for x in sd.axes) and not (nofeat and not (isinstance(cd, Arr) and not any(is_unk(x) for x in cd.axes))):
